@@ -38,6 +38,65 @@ fn native_spec() {
                 }
             }
         }
+    } else if target == "typed_remove" || target == "typed_get" {
+        // C04: typed access with the wrong type fails WITHOUT disturbing the stored values
+        let m0 = Command::new("p")
+            .arg(Arg::new("port").long("port").value_parser(crate::value_parser!(u16)).action(ArgAction::Set))
+            .try_get_matches_from(["p", "--port", "80"])
+            .unwrap();
+        let mut m = m0.clone();
+        if !matches!(m.try_get_one::<String>("port"), Err(crate::parser::MatchesError::Downcast { .. })) {
+            println!("SPEC-REPLAY MISMATCH target={target} case=try_get_one::<String> on a u16 argument did not report Downcast");
+        }
+        if !matches!(m.try_remove_one::<String>("port"), Err(crate::parser::MatchesError::Downcast { .. })) {
+            println!("SPEC-REPLAY MISMATCH target={target} case=try_remove_one::<String> on a u16 argument did not report Downcast");
+        }
+        if m.try_get_one::<u16>("port").ok().flatten().copied() != Some(80) {
+            println!("SPEC-REPLAY MISMATCH target={target} case=after a failed try_remove_one::<String>(\"port\") the u16 value 80 is gone: {:?}", m.try_get_one::<u16>("port"));
+        }
+        if m != m0 {
+            println!("SPEC-REPLAY MISMATCH target={target} case=matches differ after failed typed accesses");
+        }
+        if m.try_remove_one::<u16>("port").ok().flatten() != Some(80) || m.try_get_one::<u16>("port").ok().flatten().is_some() {
+            println!("SPEC-REPLAY MISMATCH target={target} case=a correctly typed remove did not take the value out");
+        }
+    } else if target == "line_wrapper_step" {
+        // C20 through the crate's own wrap(): indented lines of 1..4 short words, widths 1..9.
+        // A produced line wider than the width must hold a single word; non-space characters are kept.
+        let words = ["a", "bb", "ccc"];
+        let indents = ["", " ", "  ", "    "];
+        let mut n = 0usize;
+        for ind in indents {
+            for k in 1..=4usize {
+                let combos = 3usize.pow(k as u32);
+                for c in 0..combos {
+                    let mut text = String::from(ind);
+                    let mut cc = c;
+                    for j in 0..k {
+                        if j > 0 {
+                            text.push(' ');
+                        }
+                        text.push_str(words[cc % 3]);
+                        cc /= 3;
+                    }
+                    for w in 1..=9usize {
+                        n += 1;
+                        let out = crate::output::textwrap::wrap(&text, w);
+                        let keep = |s: &str| s.chars().filter(|c| *c != ' ' && *c != '\n').collect::<String>();
+                        if keep(&out) != keep(&text) {
+                            println!("SPEC-REPLAY MISMATCH target=line_wrapper_step case=wrap({text:?}, {w}) = {out:?}: non-space characters changed");
+                        }
+                        for line in out.split('\n') {
+                            let line = line.trim_end();
+                            if crate::output::display_width(line) > w && line.trim().contains(' ') {
+                                println!("SPEC-REPLAY MISMATCH target=line_wrapper_step case=wrap({text:?}, {w}) = {out:?}: line {line:?} is wider than {w} and holds several words");
+                            }
+                        }
+                    }
+                }
+            }
+        }
+        let _ = n;
     } else if target == "verify_num_args" || target == "needs_more_vals" {
         // option --o with num_args(lo..=hi), k values given, then end of line
         for lo in 0..4usize {
